@@ -34,7 +34,7 @@ RULE = ('case = (config, construction route, seed, action-index sequence, repres
         'least one terminated episode or a representation switch; distinct by (config, route, seed).')
 ASSUMPTIONS = ['twin built from the same file with the same seed consumes randomness in the same order (reset+observation, step+observation)']
 REQUIRED = {'quick': {'steps.checked': 4000, 'resets.checked': 100, 'index_mapping.checked': 4000, 'switches.checked': 40,
-                      'state_wrapper.steps': 500, 'route.direct': 20, 'route.entry_point': 20, 'route.gym_make': 20}}
+                      'state_wrapper.steps': 500, 'route.direct': 20, 'route.entry_point': 20, 'route.gym_make': 20, 'resets.back_to_back': 100}}
 
 
 def same_dict(a, b):
@@ -110,8 +110,8 @@ def run_route(ctx, route, name, path, seed, nsteps):
     if not isinstance(genv, gv_gym.GymEnvironment):
         ctx.violation('adapter', 'build.not_a_GymEnvironment', f'{label}: {type(genv).__name__}', 'gym_case', payload)
         return
-    reg_path = os.path.join(boot_repo(), 'gym_gridverse', 'registered_envs', name + '.yaml')
-    twin = factory_env_from_yaml(path if route == 'direct' else reg_path)
+    # the twin is assembled by hand from the yaml/ copy (independent of the factory and of any caching in it)
+    twin = compose.build_env(compose.load_yaml(path))
     genv.outer_env.inner_env.set_seed(seed)
     twin.set_seed(seed)
     spy = Spy(genv.outer_env)
@@ -151,6 +151,24 @@ def run_route(ctx, route, name, path, seed, nsteps):
         ctx.violation('adapter', 'action_space.size', f'{label}: Discrete({n_actions}) vs {len(genv.outer_env.action_space.actions)} actions',
                       'gym_case', payload)
     for t in range(nsteps):
+        if t % 23 == 5:  # spontaneous reset(s), sometimes back to back, sometimes right after a reset
+            for _ in range(1 + (t % 2)):
+                ok, got = call_real(env.reset)
+                if not ok:
+                    ctx.violation('adapter', 'reset.raises', f'{label}: {describe_exc(got)}', 'gym_case', payload)
+                    return
+                if isinstance(got, tuple):
+                    got = got[0]
+                s = twin.functional_reset()
+                o = twin.functional_observation(s)
+                ctx.hit('resets.checked')
+                ctx.hit('resets.back_to_back')
+                if not check_obs(got, o, 'reset'):
+                    return
+                if not same_dict(genv.observation, orep.convert(o)):
+                    ctx.violation('adapter', 'observation.property_stale', f'{label}: GymEnvironment.observation is not the observation '
+                                  f'of the fresh state after reset', 'gym_case', payload)
+                    return
         if t and t % 40 == 0:  # switch representation mid-run
             rep_name = rng.choice(repgen.NAMES)
             genv.set_observation_representation(rep_name)
@@ -233,7 +251,7 @@ def state_wrapper(ctx, name, path, seed, nsteps):
                      state_representation=make_state_representation(rep_name, inner.state_space))
     genv = gv_gym.GymEnvironment(outer)
     wrapper = gv_gym.GymStateWrapper(genv)
-    twin = factory_env_from_yaml(path)
+    twin = compose.build_env(compose.load_yaml(path))
     inner.set_seed(seed)
     twin.set_seed(seed)
     srep = make_state_representation(rep_name, twin.state_space)
@@ -275,10 +293,11 @@ def state_wrapper(ctx, name, path, seed, nsteps):
         okc, inside = call_real(wrapper.observation_space.contains, got)
         if not okc or not inside:
             ctx.violation('adapter', 'state_wrapper.outside_advertised_space', f'{label}: state outside the advertised space', 'gym_case', payload)
-        if d2:
-            got = wrapper.reset()
-            s = twin.functional_reset()
-            o = twin.functional_observation(s)
+        if d2 or t % 31 == 7:
+            for _ in range(1 if d2 else 2):
+                got = wrapper.reset()
+                s = twin.functional_reset()
+                o = twin.functional_observation(s)
             if not same_dict(got, srep.convert(s)):
                 ctx.violation('adapter', 'state_wrapper.reset_not_state', f'{label}: reset did not return the state representation', 'gym_case', payload)
                 return
